@@ -1,29 +1,170 @@
-(* DC02.v — dispatch entries of property C02 (ID ↦ geometry) *)
+(* DC02.v — dispatch entries of property C02 (ID ↦ geometry of its voxel, tiling).
+   corr = the bit-exact model (VertexF / PointF, transcendental functions answered by Go's math package) equals the observed output;
+   prop = the checkers of VertexCheck.v (exact integer references, corner order, midpoint, round trip, shared faces) accept the observed output. *)
 From Coq Require Import ZArith String List Bool Floats.
-From SID Require Import Base Str Ids Wire F64 ExactRef PointF VertexF DC01.
+From SID Require Import Base Str Ids Wire F64 ExactRef PointF VertexF VertexCheck.
 Import ListNotations.
 Open Scope string_scope.
 
-  Definition of_points (l : list point) : val := VL (map of_point l).
-  Fixpoint points_eqb (a : list point) (b : list val) : bool :=
+  Definition c02_ofun (oracle : oracle_t) (name : string) (x : float) : float :=
+    match oracle name [VF x] with VF r => r | _ => nan end.
+  Definition c02_of_point (p : point) : val := VL [VF (plon p); VF (plat p); VF (palt p)].
+  Definition c02_of_points (l : list point) : val := VL (map c02_of_point l).
+  Definition c02_as_point (v : val) : option point :=
+    match v with
+    | VL [VF a; VF b; VF c] => Some {| plon := a; plat := b; palt := c |}
+    | _ => None
+    end.
+  Definition c02_as_points (v : val) : option (list point) :=
+    match v with
+    | VL l => all_opt (map c02_as_point l)
+    | _ => None
+    end.
+  Definition c02_point_eqb (p q : point) : bool := point_eqb_bits p q.
+  Fixpoint c02_points_eqb (a b : list point) : bool :=
     match a, b with
     | [], [] => true
-    | p :: a', VL [VF x; VF y; VF z] :: b' => feqb_val x (plon p) && feqb_val y (plat p) && feqb_val z (palt p) && points_eqb a' b'
+    | p :: a', q :: b' => c02_point_eqb p q && c02_points_eqb a' b'
     | _, _ => false
     end.
+  Definition c02_res_points (m : result (list point)) : val :=
+    match m with Ok l => c02_of_points l | Err => VE VNil end.
+  Definition c02_corr_points (m : result (list point)) (obs : val) : bool :=
+    match m, obs with
+    | Err, VE _ => true
+    | Ok l, _ => match c02_as_points obs with Some o => c02_points_eqb l o | None => false end
+    | _, _ => false
+    end.
+
+  (* GetPointOnExtendedSpatialId / GetPointOnSpatialId *)
+  Definition c02_parse (sid : bool) (id : string) : option eid :=
+    if sid then match sid_to_eid_str id with Some e => parse_eid e | None => None end else parse_eid id.
   Definition d_point_on_id (oracle : oracle_t) (sid : bool) (args : list val) (obs : val) : verdict :=
     match args with
     | [VS id; VZ opt] =>
-        let sinhf := ofun oracle "sinh" in let atanf := ofun oracle "atan" in
+        let sinhf := c02_ofun oracle "sinh" in let atanf := c02_ofun oracle "atan" in
         let m := if sid then point_on_sid_api sinhf atanf id opt else point_on_eid_api sinhf atanf id opt in
-        let corr := match m, obs with
-                    | Err, VE _ => true
-                    | Ok l, VL o => points_eqb l o
-                    | _, _ => false end in
-        mkv corr corr "-" (match m with Ok l => of_points l | Err => VE VNil end)
+        let corr := c02_corr_points m obs in
+        let prop :=
+          match c02_parse sid id with
+          | None => is_err obs
+          | Some i =>
+              if negb (check_zoom (eh i) && check_zoom (ev i)) then is_err obs
+              else if negb ((opt =? 0)%Z || (opt =? 1)%Z) then is_err obs
+              else match c02_as_points obs with
+                   | None => false
+                   | Some o =>
+                       if validb i then (if (opt =? 0)%Z then check_vertices i o else check_centre i o)
+                       else (length o =? (if (opt =? 0)%Z then 8 else 1))%nat     (* outside the grid only the shape is claimed *)
+                   end
+          end in
+        mkv corr prop "-" (c02_res_points m)
     | _ => bad_case
     end.
 
+  (* CentreRoundTrip: [id; sid?] ↦ [centre; ID of the centre at the same zooms] *)
+  Definition d_roundtrip (oracle : oracle_t) (args : list val) (obs : val) : verdict :=
+    match args with
+    | [VS id; VB sid] =>
+        let sinhf := c02_ofun oracle "sinh" in let atanf := c02_ofun oracle "atan" in
+        let tanf := c02_ofun oracle "tan" in let cosf := c02_ofun oracle "cos" in let logf := c02_ofun oracle "log" in
+        match c02_parse sid id with
+        | None => mkv (is_err obs) (is_err obs) "-" (VE VNil)
+        | Some i =>
+            let mc := if sid then point_on_sid_api sinhf atanf id 1 else point_on_eid_api sinhf atanf id 1 in
+            match mc with
+            | Ok [c] =>
+                let mb := if sid then points_sid_api tanf cosf logf false [c] (eh i)
+                          else points_api tanf cosf logf false [c] (eh i) (ev i) in
+                match mb with
+                | Ok [b] =>
+                    let model := VL [c02_of_point c; VS b] in
+                    match obs with
+                    | VL [pc; VS ob] =>
+                        let corr := match c02_as_point pc with Some oc => c02_point_eqb c oc | None => false end && String.eqb b ob in
+                        let back := if sid then match sid_to_eid_str ob with Some e => e | None => EmptyString end else ob in
+                        let prop := if validb i
+                                    then check_roundtrip i back &&
+                                         match c02_as_point pc with Some oc => check_centre i [oc] | None => false end
+                                    else true in
+                        mkv corr prop "-" model
+                    | _ => mkv false false "-" model
+                    end
+                | _ => mkv (is_err obs) (is_err obs) "-" (VE VNil)
+                end
+            | _ => mkv (is_err obs) (is_err obs) "-" (VE VNil)
+            end
+        end
+    | _ => bad_case
+    end.
+
+  (* SharedFaces: [idA; idB; axis] with B the neighbour of A along the axis ↦ [vertices of A; vertices of B] *)
+  Definition d_shared (oracle : oracle_t) (args : list val) (obs : val) : verdict :=
+    match args with
+    | [VS ida; VS idb; VZ axis] =>
+        let sinhf := c02_ofun oracle "sinh" in let atanf := c02_ofun oracle "atan" in
+        match parse_eid ida, parse_eid idb with
+        | Some a, Some b =>
+            if negb (validb a && validb b && eid_eqb b (neighbour axis a)) then bad_case
+            else match point_on_eid_api sinhf atanf ida 0, point_on_eid_api sinhf atanf idb 0 with
+                 | Ok ma, Ok mb =>
+                     let model := VL [c02_of_points ma; c02_of_points mb] in
+                     match obs with
+                     | VL [oa; ob] =>
+                         match c02_as_points oa, c02_as_points ob with
+                         | Some pa, Some pb =>
+                             mkv (c02_points_eqb ma pa && c02_points_eqb mb pb)
+                                 (check_shared axis pa pb && check_vertices a pa && check_vertices b pb) "-" model
+                         | _, _ => mkv false false "-" model
+                         end
+                     | _ => mkv false false "-" model
+                     end
+                 | _, _ => bad_case
+                 end
+        | _, _ => bad_case
+        end
+    | _ => bad_case
+    end.
+
+  (* hooks: the unexported helpers, also outside the grid (clamp / wrap branches) *)
+  Definition d_vertex_hook (oracle : oracle_t) (centre_q : bool) (args : list val) (obs : val) : verdict :=
+    match args with
+    | [VZ x; VZ y; VZ h; VF alt; VF res] =>
+        let sinhf := c02_ofun oracle "sinh" in let atanf := c02_ofun oracle "atan" in
+        let m := if centre_q then [centre sinhf atanf h x y alt res] else vertices sinhf atanf h x y alt res in
+        let corr := c02_corr_points (Ok m) obs in
+        mkv corr corr "-" (c02_of_points m)
+    | _ => bad_case
+    end.
+  Definition d_alt_hook (args : list val) (obs : val) : verdict :=
+    match args with
+    | [VZ f; VZ v] =>
+        let a := valt f v in let r := vres v in
+        match obs with
+        | VL [VF oa; VF or] =>
+            let corr := feqb_bits a oa && feqb_bits r or in
+            let prop := if check_zoom v && (- 2 ^ v <=? f)%Z && (f <? 2 ^ v)%Z
+                        then is_bottom v f oa && dy_eq or (2 ^ 25) v else corr in
+            mkv corr prop "-" (VL [VF a; VF r])
+        | _ => mkv false false "-" (VL [VF a; VF r])
+        end
+    | _ => bad_case
+    end.
+  Definition d_attrs_hook (args : list val) (obs : val) : verdict :=
+    match args with
+    | [VS id] =>
+        match parse_eid id with
+        | None => mkv (is_err obs) (is_err obs) "-" (VE VNil)
+        | Some i =>
+            let m := [eh i; ex i; ey i; ev i; ef i] in
+            let corr := match (if is_err obs then None else as_LZ obs) with Some o => list_eqb Z.eqb m o | None => false end in
+            mkv corr corr "-" (of_LZ m)
+        end
+    | _ => bad_case
+    end.
 
 Definition table_C02 : table :=
-  [("GetPointOnExtendedSpatialId", fun o => d_point_on_id o false); ("GetPointOnSpatialId", fun o => d_point_on_id o true)].
+  [("GetPointOnExtendedSpatialId", fun o => d_point_on_id o false); ("GetPointOnSpatialId", fun o => d_point_on_id o true);
+   ("CentreRoundTrip", d_roundtrip); ("SharedFaces", d_shared);
+   ("VertexHook", fun o => d_vertex_hook o false); ("CentreHook", fun o => d_vertex_hook o true);
+   ("AltHook", fun _ => d_alt_hook); ("AttrsHook", fun _ => d_attrs_hook)].
